@@ -1,6 +1,6 @@
 SPECIFICATION Spec
 CONSTANTS
   Profile = "soup"
-  MaxTok = 2
+  MaxTok = 3
   MaxUnits = 0
 INVARIANT SoupInv
